@@ -13,7 +13,8 @@ Open Scope string_scope.
 Record accepted_by_all (fuel : nat) (dev_name : string) (d0 : device) : Prop := {
   ab_names_unique : Names.names_unique (Names.names_normalized d0) = None;
   ab_refs : Names.refs_candidates (Names.names_normalized d0) = [];
-  ab_enums : Enum.enum_values_check_fixed (Names.names_normalized d0) = Enum.VOk;
+  ab_no_recursive_ref : Names.recursive_block_refs (Names.names_normalized d0) = Ok None;
+  ab_enums : Enum.enum_values_check_repaired (Names.names_normalized d0) = Enum.VOk;
   ab_layout : layout_check (Names.names_normalized d0) = None;
   ab_reset : exists d1 em, Reset.bos_pass (Names.names_normalized d0) = ROk d1 /\ Reset.reset_pass d1 = Ok (ROk em);
   ab_addr : Addr.accepted true fuel dev_name (Names.names_normalized d0)
@@ -24,9 +25,10 @@ Theorem pipeline_accept_inv fuel dev_name d0 :
 Proof.
   unfold pipeline. set (d := Names.names_normalized d0).
   destruct (Names.names_unique d) eqn:Hnu; [discriminate|].
-  destruct (Enum.enum_values_check_fixed d) eqn:Hen; try discriminate.
+  destruct (Enum.enum_values_check_repaired d) eqn:Hen; try discriminate.
   destruct (first_error (map (byte_order_check (d_config d)) (preorder_objects (d_objects d)))) eqn:Hbo; [discriminate|].
   destruct (Names.refs_candidates d) eqn:Hrc; [|discriminate].
+  destruct (Names.recursive_block_refs d) as [[erec|]|] eqn:Hrec; try discriminate.
   destruct (Reset.bos_pass d) as [d1|] eqn:Hbos; [|discriminate].
   destruct (Reset.reset_pass d1) as [[em|]|] eqn:Hrp; try discriminate.
   destruct (mapM bool_fields_object (preorder_objects (d_objects d))) as [objs'|] eqn:Hbf; [|discriminate].
@@ -42,12 +44,12 @@ Theorem pipeline_accept_iff fuel dev_name d0 :
   pipeline fuel dev_name d0 = PAccept <-> accepted_by_all fuel dev_name d0.
 Proof.
   split; [apply pipeline_accept_inv|].
-  intros [Hnu Hrc Hen Hl (d1 & em & Hbos & Hrp) Hac].
+  intros [Hnu Hrc Hrec Hen Hl (d1 & em & Hbos & Hrp) Hac].
   unfold pipeline. set (d := Names.names_normalized d0) in *.
   rewrite Hnu, Hen.
   unfold layout_check in Hl.
   destruct (first_error (map (byte_order_check (d_config d)) (preorder_objects (d_objects d)))) eqn:Hbo; [discriminate|].
-  rewrite Hrc, Hbos, Hrp.
+  rewrite Hrc, Hrec, Hbos, Hrp.
   destruct (mapM bool_fields_object (preorder_objects (d_objects d))) as [objs'|] eqn:Hbf; [|discriminate].
   rewrite Hl. unfold Addr.accepted in Hac. rewrite Hac. reflexivity.
 Qed.
@@ -63,8 +65,9 @@ Proof. intros H. apply layout_accept_iff_wf. exact (ab_layout _ _ _ (pipeline_ac
 Corollary pipeline_accept_name_ref fuel dev_name d0 :
   pipeline fuel dev_name d0 = PAccept -> Names.name_ref_check d0 = true.
 Proof.
-  intros H. destruct (pipeline_accept_inv _ _ _ H) as [Hnu Hrc _ _ _ _].
-  unfold Names.name_ref_check. rewrite Hnu. unfold Names.refs_validated_ok. rewrite Hrc. reflexivity.
+  intros H. destruct (pipeline_accept_inv _ _ _ H) as [Hnu Hrc Hrec _ _ _ _].
+  unfold Names.name_ref_check. rewrite Hnu. unfold Names.refs_validated_ok, Names.no_recursive_block_refs.
+  rewrite Hrc, Hrec. reflexivity.
 Qed.
 
 Corollary pipeline_accept_not_c14_reject fuel dev_name d0 :
@@ -74,20 +77,23 @@ Proof.
   rewrite (pipeline_accept_name_ref _ _ _ H) in Hs. discriminate.
 Qed.
 
-(* C15: every inline enum of the definition passes the (repaired) enum analysis; for widths below 127 none of them
-   is in the property's reject class *)
+(* C15: every inline enum of the definition passes the enum analysis as it is now (D12, D16, D17 repaired), hence
+   also the older model (EnumProofs.repaired_ok_implies_fixed_ok); for widths below 127 none of them is in the
+   property's reject class (the D16 / D17 clauses included) *)
 Corollary pipeline_accept_enums fuel dev_name d0 :
   pipeline fuel dev_name d0 = PAccept ->
-  Forall (fun s => Enum.enum_check_fixed (Enum.s_obj s) (f_name (Enum.s_field s)) (Enum.s_width s) (Enum.s_enum s) (Enum.s_try s) = Enum.VOk
-                   /\ ((0 <= Enum.s_width s < 127)%Z -> ~ Enum.spec_reject (Enum.s_width s) (e_variants (Enum.s_enum s)) (Enum.s_try s)))
+  Forall (fun s => Enum.enum_check_repaired (f_base (Enum.s_field s)) (Enum.s_obj s) (f_name (Enum.s_field s)) (Enum.s_width s) (Enum.s_enum s) (Enum.s_try s) = Enum.VOk
+                   /\ Enum.enum_check_fixed (Enum.s_obj s) (f_name (Enum.s_field s)) (Enum.s_width s) (Enum.s_enum s) (Enum.s_try s) = Enum.VOk
+                   /\ ((0 <= Enum.s_width s < 127)%Z ->
+                       ~ Enum.spec_reject_repaired (f_base (Enum.s_field s)) (Enum.s_width s) (e_variants (Enum.s_enum s)) (Enum.s_try s)))
          (Enum.enum_sites (Names.names_normalized d0)).
 Proof.
   intros H. pose proof (ab_enums _ _ _ (pipeline_accept_inv _ _ _ H)) as He.
-  unfold Enum.enum_values_check_fixed, Enum.enum_values_check_with in He.
-  apply EnumProofs.first_verdict_ok in He.
-  eapply Forall_impl; [|exact He]. intros s Hs. split; [exact Hs|].
-  intros Hw Hr. apply (EnumProofs.reject_iff_fixed (Enum.s_obj s) (f_name (Enum.s_field s)) _ _ _ Hw) in Hr.
-  destruct Hr as [err Herr]. unfold Enum.check_site_with in Hs. unfold Enum.enum_check_fixed in Herr. congruence.
+  apply EnumProofs.device_accept_iff_repaired in He.
+  eapply Forall_impl; [|exact He]. intros s Hs. split; [exact Hs|]. split.
+  - exact (EnumProofs.repaired_ok_implies_fixed_ok _ _ _ _ _ _ Hs).
+  - intros Hw Hr. apply (EnumProofs.reject_iff_repaired (f_base (Enum.s_field s)) (Enum.s_obj s) (f_name (Enum.s_field s)) _ _ _ Hw) in Hr.
+    destruct Hr as [err Herr]. congruence.
 Qed.
 
 (* ---------------------------------------------------------------- the printed verdict *)
